@@ -106,8 +106,10 @@ func ruleC04a(c *Ctx) {
 				// result feeds wrapRequestResponse
 				fed := false
 				for _, r := range referrers(call) {
-					if cc := callCommon(r); cc != nil && cc.StaticCallee() != nil && cc.StaticCallee().Name() == "wrapRequestResponse" && len(cc.Args) == 4 && cc.Args[3] == ssa.Value(call) {
-						fed = true
+					if pw := p.pairWrapper(); pw != nil {
+						if cc := callCommon(r); cc != nil && cc.StaticCallee() == pw.Fn && pw.PathVars >= 0 && pw.PathVars < len(cc.Args) && cc.Args[pw.PathVars] == ssa.Value(call) {
+							fed = true
+						}
 					}
 				}
 				c.check(fed, name, "the extracted parameters are the ones the request is wrapped with", p.ipos(i), "result is the pathParams argument of wrapRequestResponse", "the extracted map is not what the handler sees")
@@ -115,7 +117,8 @@ func ruleC04a(c *Ctx) {
 		}
 	}
 	// the wrapper stores the binder's result on every path
-	if w := p.fn("(*Route).wrapRequestResponse"); w != nil {
+	if pw := p.pairWrapper(); pw != nil {
+		w := pw.Fn
 		sites := map[ssa.Instruction]bool{}
 		eachInstr(w, func(i ssa.Instruction) {
 			if st, ok := i.(*ssa.Store); ok {
@@ -146,7 +149,8 @@ func ruleC04a(c *Ctx) {
 				return
 			}
 			prm, isParam := strip(st.Val).(*ssa.Parameter)
-			c.check(isParam && fn.Name() == "wrapRequestResponse" && prm.Name() != "", name, "Request.pathParameters is the binder's result, unmodified", p.ipos(i), "stored from the pathParams parameter", "path parameters are assigned from somewhere else than the binder's result")
+			pw := p.pairWrapper()
+			c.check(isParam && pw != nil && fn == pw.Fn && prm.Name() != "", name, "Request.pathParameters is the binder's result, unmodified", p.ipos(i), "stored from the pathParams parameter", "path parameters are assigned from somewhere else than the binder's result")
 		})
 	}
 }
@@ -216,14 +220,11 @@ func ruleC04d(c *Ctx) {
 				c.check(okSrc, name, "Route."+f+" is computed from the route's own full Path", p.ipos(i), "f(r.Path) on the same route", "Route."+f+" is not derived from this route's Path: matcher and binder walk tokens of a different template")
 			case "Path":
 				n++
-				okSrc := false
-				if call, ok := strip(st.Val).(*ssa.Call); ok && call.Call.StaticCallee() != nil && p.inModule(call.Call.StaticCallee()) && len(call.Call.Args) == 2 {
-					_, f1, ok1 := fieldLoad(strip(call.Call.Args[0]))
-					_, f2, ok2 := fieldLoad(strip(call.Call.Args[1]))
-					if ok1 && ok2 && strings.Contains(strings.ToLower(f1.Name()), "root") && strings.Contains(strings.ToLower(f2.Name()), "path") {
-						okSrc = true
-					}
-				}
+				// the value is built (through module helpers, concatenation and strings/path functions) from two
+				// different string fields of the builder: the service's root path and the route's own path
+				leaves := map[*types.Var]bool{}
+				stringFieldLeaves(p, st.Val, nil, 0, map[ssa.Value]bool{}, leaves)
+				okSrc := len(leaves) >= 2
 				c.check(okSrc, name, "Route.Path is root path joined with route path", p.ipos(i), "concat(rootPath, currentPath)", "Route.Path is not the join of the service root and the route path: root variables are not part of the tokens")
 			}
 		})
@@ -289,4 +290,67 @@ func ruleC04e(c *Ctx) {
 		c.check(ok && src == ssa.Value(svc), name, "the route expression is applied to the remainder of the service match", p.ipos(rt), "final group of the service expression's match", "the route expression is applied to something other than the remainder the router matched it against: groups bind the wrong text")
 	}
 	_ = token.ADD
+}
+
+// stringFieldLeaves collects the string-typed struct fields v is computed from, through module calls (parameters are
+// replaced by the call's arguments), string concatenation and the string functions of the standard library.
+func stringFieldLeaves(p *Program, v ssa.Value, subst map[*ssa.Parameter]ssa.Value, depth int, seen map[ssa.Value]bool, out map[*types.Var]bool) {
+	v = strip(v)
+	if depth > 4 || seen[v] {
+		return
+	}
+	seen[v] = true
+	if _, f, ok := fieldLoad(v); ok {
+		if isStringType(f.Type()) {
+			out[f] = true
+		}
+		return
+	}
+	switch x := v.(type) {
+	case *ssa.Parameter:
+		if a, ok := subst[x]; ok {
+			stringFieldLeaves(p, a, nil, depth, seen, out)
+		}
+	case *ssa.Phi:
+		for _, e := range x.Edges {
+			stringFieldLeaves(p, e, subst, depth, seen, out)
+		}
+	case *ssa.BinOp:
+		if x.Op == token.ADD {
+			stringFieldLeaves(p, x.X, subst, depth, seen, out)
+			stringFieldLeaves(p, x.Y, subst, depth, seen, out)
+		}
+	case *ssa.Call:
+		if cal := x.Call.StaticCallee(); cal != nil && p.inModule(cal) && cal.Blocks != nil {
+			ns := map[*ssa.Parameter]ssa.Value{}
+			for k, a := range x.Call.Args {
+				if k < len(cal.Params) {
+					// arguments are values of the caller's context: resolve them there first
+					if prm, isP := strip(a).(*ssa.Parameter); isP && subst != nil {
+						if aa, ok := subst[prm]; ok {
+							a = aa
+						}
+					}
+					ns[cal.Params[k]] = a
+				}
+			}
+			for _, r := range returnsOf(cal) {
+				for _, res := range r.Results {
+					if isStringType(res.Type()) {
+						stringFieldLeaves(p, res, ns, depth+1, seen, out)
+					}
+				}
+			}
+			// a method reading fields of its receiver: fields are leaves whatever the receiver is
+			return
+		}
+		n := calleeName(&x.Call)
+		if strings.HasPrefix(n, "strings.") || strings.HasPrefix(n, "path.") || n == "fmt.Sprintf" {
+			for _, a := range x.Call.Args {
+				if isStringType(a.Type()) {
+					stringFieldLeaves(p, a, subst, depth, seen, out)
+				}
+			}
+		}
+	}
 }
